@@ -193,6 +193,14 @@ class PE:
             return True
         if k in ("Deref", "DerefPattern"):
             return self.match(p["sub"], v, env)
+        if k == "Const" and isinstance(v, Lin):
+            pv = p.get("val")
+            if isinstance(pv, dict) and "char" in pv:
+                pv = pv["char"]
+            if isinstance(pv, bool):
+                pv = int(pv)
+            v.log.append(("Eq", pv - v.b))
+            return v.w + v.b == pv
         if k == "Const":
             pv = p.get("val")
             if isinstance(pv, dict) and "char" in pv:
@@ -222,10 +230,6 @@ class PE:
                     v.log.append(("Lt", hi - v.b))
                     res = res and (v.w + v.b < hi)
             return res
-        if k == "Const" and isinstance(v, Lin):
-            pv = p.get("val")
-            v.log.append(("Eq", pv - v.b))
-            return v.w + v.b == pv
         if k == "Range":
             if isinstance(v, Sym):
                 return self.decide(("pat-range", v, p["lo"], p["hi"], p["end"]), p)
@@ -389,7 +393,11 @@ class PE:
         return Tup([self.ev(x, env) for x in e["items"]])
 
     def x_Repeat(self, e, env):
-        return Sym("array")
+        n = e.get("n")
+        if isinstance(n, int) and n <= 64:
+            v = self.ev(e["e"], env)
+            return Tup([v] * n)
+        return Sym(("array", n))
 
     def x_Adt(self, e, env):
         fields = {f["name"]: self.ev(f["e"], env) for f in e["fields"]}
